@@ -17,6 +17,12 @@ DEP_GIR = GIR_HEAD + '''<namespace name="Dep" version="1.0" c:identifier-prefixe
 <function name="do_it" c:identifier="dep_do_it"><return-value transfer-ownership="none"><type name="none" c:type="void"/></return-value></function>
 </namespace></repository>
 '''
+# an included namespace whose prefixes extend the scanned namespace's own (Gdk / GdkPixbuf style)
+EXT_GIR = GIR_HEAD + '''<namespace name="FooExt" version="1.0" c:identifier-prefixes="FooExt" c:symbol-prefixes="foo_ext">
+<record name="Obj" c:type="FooExtObj"><field name="x" writable="1"><type name="gint" c:type="gint"/></field></record>
+<function name="init" c:identifier="foo_ext_init"><return-value transfer-ownership="none"><type name="none" c:type="void"/></return-value></function>
+</namespace></repository>
+'''
 TYPE_WORDS = ['Rec', 'Text', 'TextBuffer', 'Item', 'ItemList', 'Node', 'X', 'Stream', 'IOStream', 'Widget2', 'ABCThing', 'Url']
 FUNC_WORDS = ['new', 'new_with_size', 'get_x', 'set_x', 'frob', 'copy', 'free', 'do_it', 'insert', 'buffer_insert', 'list_append', 'create']
 
@@ -36,6 +42,8 @@ def setup_subject():
     d = tempfile.mkdtemp(prefix='vt-c04-inc-')
     with open(os.path.join(d, 'Dep-1.0.gir'), 'w') as f:
         f.write(DEP_GIR)
+    with open(os.path.join(d, 'FooExt-1.0.gir'), 'w') as f:
+        f.write(EXT_GIR)
     import atexit
     pid = os.getpid()
     atexit.register(lambda: shutil.rmtree(d, ignore_errors=True) if os.getpid() == pid else None)
@@ -44,7 +52,7 @@ def setup_subject():
 
 
 def gen_config(rng):
-    cfg = rng.choice(['plain', 'plain', 'two-ident', 'nested-ident', 'two-symbol', 'dep-prefix', 'unprefixed', 'symbol-underscore'])
+    cfg = rng.choice(['plain', 'plain', 'two-ident', 'nested-ident', 'two-symbol', 'dep-prefix', 'unprefixed', 'symbol-underscore', 'longer-include-prefix'])
     c = {'kind': cfg, 'ident': ['Foo'], 'symbol': ['foo'], 'accept_unprefixed': False, 'includes': ['GObject-2.0']}
     if cfg == 'two-ident':
         c['ident'] = ['Foo', 'Bar']
@@ -57,6 +65,8 @@ def gen_config(rng):
         if rng.random() < 0.5:
             c['ident'] = ['Foo', 'Dep']
             c['symbol'] = ['foo', 'dep']
+    elif cfg == 'longer-include-prefix':
+        c['includes'] = ['GObject-2.0', 'FooExt-1.0']
     elif cfg == 'unprefixed':
         c['accept_unprefixed'] = True
     elif cfg == 'symbol-underscore':
@@ -166,6 +176,18 @@ def gen_decls(rng, cfg):
     if 'Dep-1.0' in cfg['includes'] and rng.random() < 0.7:
         lines.append(apigen.render_function('dep_extra_call', 'void', [('gint', 'x')]))
         decls.append({'c': 'dep_extra_call', 'class': 'function', 'shape': 'dep-prefixed', 'ret': 'void', 'params': [('gint', 'x')], 'type': None})
+    if 'FooExt-1.0' in cfg['includes']:
+        # declared in the scanned headers and carrying this namespace's prefix: they are this namespace's, although an
+        # included namespace has a longer prefix that matches too
+        for nm in rng.sample(['foo_ext_call', 'foo_ext_thing_get', 'foo_extra', 'foo_ext'], rng.choice([1, 2, 3])):
+            lines.append(apigen.render_function(nm, 'void', [('gint', 'x')]))
+            decls.append({'c': nm, 'class': 'function', 'shape': 'longer-include-prefix', 'ret': 'void', 'params': [('gint', 'x')], 'type': None})
+        if rng.random() < 0.7:
+            lines.append('#define FOO_EXT_LIMIT 7')
+            decls.append({'c': 'FOO_EXT_LIMIT', 'class': 'constant'})
+        if rng.random() < 0.5:
+            lines.append('typedef struct _FooExtra FooExtra;\nstruct _FooExtra {\n  gint q;\n};')
+            decls.append({'c': 'FooExtra', 'class': 'type', 'kind': 'record', 'order': 'longer-include-prefix'})
     # constants
     for i in range(rng.choice([1, 2, 3])):
         spx = rng.choice(sp)
@@ -200,7 +222,7 @@ def ns_strip(cname, cls, cfg):
     return out or None
 
 
-INCLUDED_PREFIXES = {'GObject-2.0': (['G'], ['g', 'glib', 'gobject']), 'Dep-1.0': (['Dep'], ['dep'])}
+INCLUDED_PREFIXES = {'GObject-2.0': (['G'], ['g', 'glib', 'gobject']), 'Dep-1.0': (['Dep'], ['dep']), 'FooExt-1.0': (['FooExt'], ['foo_ext'])}
 
 
 def carries_included_prefix(cname, cls, cfg):
